@@ -209,14 +209,29 @@ impl<K, V> DoubleEndedIterator for TakingIterator<K, V> {
 /// [LruCache::drain].
 pub struct Drain<'a, K, V, S> {
     iterator: TakingIterator<K, V>,
-    cache: &'a mut LruCache<K, V, S>
+
+    // Keeps the cache mutably borrowed while entries are read from its table.
+    _cache: &'a mut LruCache<K, V, S>
 }
 
 impl<'a, K, V, S> Drain<'a, K, V, S> {
     pub(crate) fn new(cache: &'a mut LruCache<K, V, S>) -> Drain<'a, K, V, S> {
+        let iterator = TakingIterator::new(cache);
+
+        // Set the cache as empty right away. The entries remain readable in
+        // their buckets for as long as the cache is mutably borrowed by this
+        // drain. Should the drain be leaked, the cache then no longer lists
+        // entries that may already have been moved out.
+
+        cache.seal.get_mut().next = cache.seal;
+        cache.seal.get_mut().prev = cache.seal;
+
+        cache.current_size = 0;
+        cache.table.clear_no_drop();
+
         Drain {
-            iterator: TakingIterator::new(cache),
-            cache
+            iterator,
+            _cache: cache
         }
     }
 }
@@ -240,14 +255,6 @@ impl<'a, K, V, S> Drop for Drain<'a, K, V, S> {
         // Drop all allocated memory of the remaining elements.
 
         for _ in self.by_ref() { }
-
-        // Set the cache as empty.
-
-        self.cache.seal.get_mut().next = self.cache.seal;
-        self.cache.seal.get_mut().prev = self.cache.seal;
-
-        self.cache.current_size = 0;
-        self.cache.table.clear_no_drop();
     }
 }
 
